@@ -266,6 +266,24 @@ pub fn all_kinds() -> Vec<(String, Vec<u8>)> {
         let v6 = pkt::build(&Spec { v6: true, src: 1, sport: 40000, dst: 2, dport: 80, flags: SYN, opts: vec![2, 4, 5, 0xa0], ..Spec::default() });
         v.push((format!("syn-v6@{fname}"), reframe(fi, &v6)));
     }
+    v.extend(uptime_kinds());
+    v
+}
+/// timestamped segments of both directions, IPv4 and IPv6, with TSvals whose uptime has different days, hours and minutes
+/// (1000 Hz under the 500 ms-per-packet clock of `check_trace` when sent two steps apart); appended after all other kinds
+pub fn uptime_kinds() -> Vec<(String, Vec<u8>)> {
+    let mut v = vec![];
+    for v6 in [false, true] {
+        let fam = if v6 { "up6" } else { "up4" };
+        let mk = |from_client: bool, flags: u8, ts: u32| {
+            let (src, sport, dst, dport) = if from_client { (1, 40100, 2, 80) } else { (2, 80, 1, 40100) };
+            pkt::build(&Spec { v6, src, sport, dst, dport, flags, seq: 1000, ack: if flags & ACK != 0 { 1 } else { 0 }, opts: [vec![1, 1], ts_opts(ts, 0)[2..].to_vec()].concat(), payload: if flags & SYN == 0 { vec![b'x'] } else { vec![] }, ..Spec::default() })
+        };
+        v.push((format!("{fam}-syn"), mk(true, SYN, 123_456_789)));
+        v.push((format!("{fam}-synack"), mk(false, SYN | ACK, 5_000_000)));
+        v.push((format!("{fam}-client-ack"), mk(true, ACK, 123_456_789 + 1000)));
+        v.push((format!("{fam}-server-data"), mk(false, ACK | PSH, 5_000_000 + 1000)));
+    }
     v
 }
 
@@ -299,6 +317,25 @@ pub fn run(thorough: bool) -> Outcome {
             }
         }
     }
+    // uptime kinds: every trace of <= 4 packets within one address family
+    let ub = k + FRAMINGS.len() * 6;
+    for fam in 0..2usize {
+        for n in 1..=4usize {
+            for mut i in 0..4usize.pow(n as u32) {
+                let mut t = vec![];
+                for _ in 0..n {
+                    t.push(ub + fam * 4 + i % 4);
+                    i /= 4;
+                }
+                traces.push(t);
+            }
+        }
+    }
+    if kinds.len() != ub + 8 {
+        let mut r = Report::new();
+        r.machinery_error("C20: packet kind table has an unexpected layout");
+        return Outcome { report: r, rule: String::new(), exhaustive: false, bounds: json!({}) };
+    }
     let mut cfgs = vec![];
     for m in 0..16u8 {
         for db in [true, false] {
@@ -316,7 +353,7 @@ pub fn run(thorough: bool) -> Outcome {
     });
     Outcome {
         report: rep,
-        rule: "every trace of <= 4 packets (5 thorough) over 19 packet kinds (SYN/SYN+ACK/ACK with timestamps, HTTP request, HTTP response, ClientHello whole and in two parts, FIN+RST, no flags, IPv4 fragment, UDP, truncated frame, Ethernet-framed IPv6 SYN) x 16 switch combinations x with/without database, unified analyzer vs stand-alone TCP / HTTP / stateless TLS processors in lock step under the injected clock; distinct = distinct unified outcomes".into(),
+        rule: "every trace of <= 4 packets (5 thorough) over 19 packet kinds (SYN/SYN+ACK/ACK with timestamps, HTTP request, HTTP response, ClientHello whole and in two parts, FIN+RST, no flags, IPv4 fragment, UDP, truncated frame, Ethernet-framed IPv6 SYN), every trace of <= 3 packets within each of 10 framings, every trace of <= 4 timestamped segments of both directions (IPv4 and IPv6, TSvals whose uptime has different days / hours / minutes) x 16 switch combinations x with/without database, unified analyzer vs stand-alone TCP / HTTP / stateless TLS processors in lock step under the injected clock; distinct = distinct unified outcomes".into(),
         exhaustive: true,
         bounds: json!({"traces": traces.len(), "configurations": cfgs.len(), "max_depth": depth}),
     }
